@@ -14,4 +14,4 @@ def B(prop, vid, file, old, new, what="", nth=None, of=None, edits=None):
                     what=what, nth=nth, of=of, edits=edits))
 
 
-from . import variants_c01, variants_c02, variants_c03, variants_c04, variants_c05, variants_c06, variants_c07, variants_c08, variants_c09, variants_c10, variants_c11, variants_c12, variants_c13, variants_c14, variants_c17, variants_c18, variants_c19, variants_c20  # noqa: E402,F401
+from . import variants_c01, variants_c02, variants_c03, variants_c04, variants_c05, variants_c06, variants_c07, variants_c08, variants_c09, variants_c10, variants_c11, variants_c12, variants_c13, variants_c14, variants_c15, variants_c16, variants_c17, variants_c18, variants_c19, variants_c20  # noqa: E402,F401
